@@ -14,7 +14,8 @@ RULE = ("random RDF 1.1 graphs and datasets (default graph, IRI and blank-node g
         "and typed literals) are written with Graph.serialize(format='jelly', options=/stream=), flat_stream_to_file, "
         "grouped_stream_to_file and stream_frames over Triple/Quad/GraphStream, flat and grouped logical types, presets >= "
         "need (and, in ~15% of the cases, prefix/datatype tables of 1-3 entries that a statement may overflow: a refusal "
-        "with JellyConformanceError is then accepted, written bytes must still round-trip), frame sizes, delimited and (flat) non-delimited; read back with Graph.parse / Dataset.parse(format='jelly'), "
+        "with JellyConformanceError is then accepted, written bytes must still round-trip; in ~15% the caller's ONE options object "
+        "was first used for a serialization that aborted on a non-RDF term, and the retry is judged), frame sizes, delimited and (flat) non-delimited; read back with Graph.parse / Dataset.parse(format='jelly'), "
         "parse_jelly_flat, parse_jelly_grouped (union) and parse_jelly_to_graph. Oracle: field-by-field equality (never "
         "rdflib ==) of the SETS of triples / quads incl. graph names. A second pass runs with rdflib.NORMALIZE_LITERALS = "
         "False. Non-trivial: dataset with >= 2 graphs or a blank-node graph name, or a stream with >= 1 eviction; distinct by "
@@ -58,12 +59,43 @@ def make_case(rng, max_len=40):
         cfg["entry"] = "graph_serialize_options"
     elif cfg["entry"] == "graph_serialize" and rng.random() < .3:
         cfg["entry"] = "graph_serialize_path"       # destination given as a file name
+    if rng.random() < .15 and stmts:
+        cfg["failed_attempt_first"] = rng.randint(1, len(stmts))
     if rng.random() < .15:
         # 'all lookup presets': prefix / datatype tables smaller than what one statement may need.  The serializer
         # may refuse such a statement (C18); whatever it does write must still read back as the input.
         n, p, d = cfg["preset"]
         cfg["preset"] = (n, rng.choice([1, 2, 3]) if p else 0, rng.choice([1, 2, d]) if d else 0)
     return cfg, stmts
+
+
+def serialize_after_failed_attempt(cfg: dict, stmts: list) -> bytes:
+    """The caller keeps ONE SerializerOptions object.  A first serialization with it aborts on a term that is not RDF
+    (after some statements were already taken); the caller drops the offending statement and serializes again with the
+    same options object.  Only the second call's output is judged."""
+    from pyjelly.integrations.rdflib import serialize as rser
+
+    opts = pj.make_options(cfg)
+    k = cfg["failed_attempt_first"]
+    natives = [T.stmt_to_rdflib(s) for s in stmts[:k]]
+    bad = tuple(list(natives[-1][:2]) + [object()] + list(natives[-1][3:]))
+    pj.OPTIONS_OVERRIDE = opts
+    try:
+        try:
+            if cfg["physical"] == 1 and k % 2:
+                g = rdflib.Graph()
+                for t in natives:
+                    g.add(t)
+                g.add((natives[-1][0], natives[-1][1], rdflib.Variable("x")))
+                g.serialize(destination=io.BytesIO(), format="jelly", options=opts)
+            else:
+                for _fr in rser.flat_stream_to_frames(iter(natives + [bad]), options=opts):
+                    pass
+        except Exception:  # noqa: BLE001 - the first attempt is meant to fail
+            pass
+        return pj.serialize(cfg, stmts)
+    finally:
+        pj.OPTIONS_OVERRIDE = None
 
 
 def undersized(cfg: dict, stmts: list) -> bool:
@@ -105,7 +137,10 @@ def roundtrip(cfg: dict, stmts: list, normalize: bool = True):
     rdflib.NORMALIZE_LITERALS = normalize
     try:
         try:
-            data = pj.serialize(cfg, stmts)
+            if cfg.get("failed_attempt_first"):
+                data = serialize_after_failed_attempt(cfg, stmts)
+            else:
+                data = pj.serialize(cfg, stmts)
         except Exception as e:  # noqa: BLE001
             if type(e).__name__ == "JellyConformanceError" and undersized(cfg, stmts):
                 return {"clause": "refused-undersized", "summary": "refused"}, None     # not a violation (see run_shard)
@@ -143,6 +178,8 @@ def run_shard(ctx):
             ctx.observe(f"reader:{r}")
         if undersized(cfg, stmts):
             ctx.observe("undersized-table-cases")
+        if cfg.get("failed_attempt_first"):
+            ctx.observe("retry-after-failed-attempt-with-same-options-object")
         if w is not None and w["clause"] == "refused-undersized":
             ctx.observe("undersized-table-cases-refused")
             ctx.case((cfg, stmts), False)
